@@ -282,3 +282,14 @@ V("C03", "fold_case_of_whole_block", "fire", [(CM, "        if diff_pre[row][\"m
 V("C03", "moved_does_not_raise_disorder", "fire", [(CM, "        elif block_in_disorder or index != old_indexes[row]:\n            block_in_disorder = True\n", "        elif block_in_disorder or index != old_indexes[row]:\n")], rule="C03.R9")
 V("C18", "remember_missing_rul", "fire", [("annet/rulebook/__init__.py", "        if name in self._escaped_rul_cache:\n            return self._escaped_rul_cache[name]\n", "        if name in self._escaped_rul_cache:\n            return self._escaped_rul_cache[name]\n        self._escaped_rul_cache[name] = None\n")], rule="C18.R8")
 V("C09", "dialog_without_nl_skipped", "fire", [(DP, "        raise Exception(\"not supported false send_nl\")", "        return None")], rule="C09.R10")
+
+# ---- round 5 clauses (seeds Cnn-I)
+V("C09", "rule_timeout_truncated", "fire", [(DP, "            \"timeout\": rule[\"attrs\"][\"timeout\"],", "            \"timeout\": int(rule[\"attrs\"][\"timeout\"]),")], rule="C09.R7")
+V("C09", "twin_rule_timeout_as_float", "silent", [(DP, "            \"timeout\": rule[\"attrs\"][\"timeout\"],", "            \"timeout\": float(rule[\"attrs\"][\"timeout\"]),")])
+V("C19", "empty_entire_output_not_filed", "fire", [(GI, "        output = gen(device)\n\n    return GeneratorEntireResult(", "        output = gen(device)\n\n    if not output:\n        return None\n    return GeneratorEntireResult(")], rule="C19.R8")
+V("C16", "file_mode_filters_unchanged_rows", "fire", [(API, "    patchtree = patch_from_pre(patching.make_pre(diff_obj), hw, rb, add_comments)", "    patchtree = patch_from_pre(patching.make_pre([x for x in diff_obj if x[0] != Op.UNCHANGED]), hw, rb, add_comments)")], rule="C16.R1")
+V("C03", "removed_nested_block_filed_without_children", "fire", [(PT, "            \"children\": make_pre(\n                diff=children,\n                _parent_match=match,\n            ),", "            \"children\": odict() if op == Op.REMOVED and _parent_match is not None else make_pre(diff=children, _parent_match=match),")], rule="C03.R1")
+V("C03", "twin_no_recursion_over_no_children", "silent", [(PT, "            \"children\": make_pre(\n                diff=children,\n                _parent_match=match,\n            ),", "            \"children\": make_pre(diff=children, _parent_match=match) if children else odict(),")])
+V("C05", "section_break_only_bare_hash", "fire", [(TP, "        if \"#\" in comments and line.startswith(\"#\"):", "        if \"#\" in comments and line.rstrip() == \"#\":")], rule="C05.R2")
+V("C14", "arista_union_named_in_sorted_order", "fire", [("annet/rpl_generators/community.py", "            name = mangle_united_community_list_name([c.name for c in community_list_union])", "            name = mangle_united_community_list_name(sorted(c.name for c in community_list_union))")], rule="C14.R4")
+V("C01", "fold_case_of_whole_block_patch_side", "fire", [(CM, "        if diff_pre[row][\"match\"][\"attrs\"][\"ignore_case\"]:\n            new_row = row.lower()", "        if True:\n            new_row = row.lower()")], rule="C01.R11")
